@@ -240,9 +240,9 @@ func SameShapeSrc(a, b []byte) string {
 	return SameShape(fa, fb)
 }
 
-// insideLines returns the set of 1-based line numbers that start inside a multi-line token
+// InsideLines returns the set of 1-based line numbers that start inside a multi-line token
 // (raw string or block comment).
-func insideLines(src []byte) map[int]bool {
+func InsideLines(src []byte) map[int]bool {
 	fset := token.NewFileSet()
 	file := fset.AddFile("", -1, len(src))
 	var s scanner.Scanner
@@ -267,7 +267,7 @@ func insideLines(src []byte) map[int]bool {
 // Reindent replaces the leading whitespace of every line that does not start inside a raw string
 // or block comment: code lines get prefix, comment-only lines get cprefix.
 func Reindent(src []byte, prefix, cprefix string) []byte {
-	inside := insideLines(src)
+	inside := InsideLines(src)
 	lines := strings.Split(string(src), "\n")
 	for i := range lines {
 		if inside[i+1] {
@@ -366,4 +366,26 @@ func FirstDiffLine(a, b []byte) string {
 		return fmt.Sprintf("line count %d vs %d", len(al), len(bl))
 	}
 	return ""
+}
+
+// CommentInImportBlock reports whether a comment lies inside a parenthesised import declaration.
+// go/format re-parses and ast.SortImports-sorts such declarations, moving comments on its own, so
+// generators canonicalise (or avoid) these layouts before perturbing them further.
+func CommentInImportBlock(src []byte) bool {
+	_, f, err := Parse(src)
+	if err != nil {
+		return false
+	}
+	for _, d := range f.Decls {
+		gd, ok := d.(*ast.GenDecl)
+		if !ok || gd.Tok != token.IMPORT || !gd.Lparen.IsValid() {
+			continue
+		}
+		for _, cg := range f.Comments {
+			if cg.Pos() > gd.Lparen && cg.Pos() < gd.Rparen {
+				return true
+			}
+		}
+	}
+	return false
 }
